@@ -66,6 +66,39 @@ def main(argv):
     codec.crosscheck_extraction(c, cd, [lines[i] for i in idx] + [redecode[i][1] for i in idx[:100] if i < len(redecode)],
                                 [m[i] for i in idx] + [m2[i] for i in idx[:100] if i < len(redecode)])
 
+    # ---- OBJECT IDENTIFIER: the library's OID encoder is TryFrom<&str>; boundary sub-identifiers must come out minimal and read back
+    oid_texts = []
+    edges = sorted(set(x for k in (7, 14, 21, 28, 32) for d in (-2, -1, 0, 1) for x in [2 ** k + d] if 0 <= x < 2 ** 32))
+    for a in edges:
+        for pos in (2, 5):
+            arcs = [1, 3] + [6] * (pos - 2) + [a] + [1]
+            oid_texts.append(arcs)
+    for _ in range(4000 if thorough else 800):
+        oid_texts.append(gen.rarcs(rng, 10))
+    olines = ["oid_parse " + gen.hx(ber.oid_text(a).encode()) for a in oid_texts]
+    mo, ro, do = cd.run(olines)
+    back = []
+    for arcs, ln, ml, rl, dl in zip(oid_texts, olines, mo, ro, do):
+        c.count(ln, nontrivial=max(arcs) > 127)
+        want = "OK " + ber.oid_content(arcs).hex()
+        for prof, o in (("release", rl), ("debug", dl)):
+            if o != ml:
+                dis += 1
+                if not any(b.startswith("correspondence") for b in c.broken):
+                    c.broken = list(c.broken) + ["correspondence `%s`: model `%s` impl(%s) `%s`" % (ln[:160], ml[:80], prof, o[:80])]
+            if o != want:
+                c.violation("OID %s is encoded as %s, the minimal X.690 encoding is %s (%s build)" % (ber.oid_text(arcs)[:60], o[3:60], want[3:60], prof),
+                            {"cmd": ln, "oid": ber.oid_text(arcs), "expected": want, "observed": o, "profile": prof}, key="oid-encode-not-minimal")
+        if rl.startswith("OK "):
+            back.append((arcs, "oid_print " + rl[3:]))
+    mo, ro, do = cd.run([b for _, b in back])
+    for (arcs, bl), ml, rl, dl in zip(back, mo, ro, do):
+        want = "OK " + gen.hx(ber.oid_text(arcs).encode())
+        for prof, o in (("release", rl), ("debug", dl)):
+            if o != want:
+                c.violation("OID %s encodes and then decodes to %s (%s build)" % (ber.oid_text(arcs)[:60], o[:60], prof),
+                            {"cmd": bl, "expected": want, "observed": o, "profile": prof}, key="oid-roundtrip")
+
     # ---- OIDs and request messages
     lines, expect = [], []
     nmsg = 6000 if thorough else 1500
@@ -150,7 +183,7 @@ def main(argv):
     c.sample({"emit": lines[0][:200], "datagram": r[0][:200]})
     c.assumptions += ["debug and release builds of the harness include /repo/src by #[path]"]
     return c.finish(
-        rule="INTEGER: every value of 1..%d content octets, +-%d around every +-2^(8k-1), +-2^(8k), %d random; non-trivial = needs more than "
+        rule="OBJECT IDENTIFIER text encoder on every sub-identifier 2^(7k)-2..2^(7k)+1 and random OIDs; INTEGER: every value of 1..%d content octets, +-%d around every +-2^(8k-1), +-2^(8k), %d random; non-trivial = needs more than "
              "one content octet. OIDs and v1/v2c/v3 Get/GetNext/GetBulk messages with 0..120 OIDs, community/user/engine id lengths across "
              "127/128/255/256; non-trivial = datagram longer than 140 octets; distinct by input"
              % (3 if thorough else 2, w, 400000 if thorough else 40000),
